@@ -1102,7 +1102,10 @@ class NestedPipeFunc(PipeFunc):
         self._profile = False
         self._renames: dict[str, str] = renames or {}
         self._defaults: dict[str, Any] = {
-            k: v for k, v in self.pipeline.defaults.items() if k in self.parameters
+            # `_defaults` is keyed by the current (renamed) parameter names
+            self._renames.get(k, k): v
+            for k, v in self.pipeline.defaults.items()
+            if k in self.original_parameters
         }
         self._bound: dict[str, Any] = {}
         self.resources_variable = None  # not supported in NestedPipeFunc
